@@ -1135,6 +1135,11 @@ func main() {
 		}
 		e.Meta["race_add_vs_close"] = rs
 		lap("race_add_vs_close")
+		// (7) round 8: PriQueue, Push of an item whose GetPriority is gated by the harness (deterministic, no random draws)
+		if focus == "" || focus == "pri" {
+			e.Meta["gated_priq"] = gatedPri(e)
+		}
+		lap("gated_priq")
 		nh := 0
 		for _, v := range hangs {
 			nh += v
